@@ -67,10 +67,22 @@ theorem allDigits_notin {s : Str} (h : allDigits s) {x : Char} (hx : isDigit x =
 /-- the record the model must build for a typed range -/
 def srOf (r : Spec.Range) : SR := ⟨r.lo, r.hi, r.loS.length⟩
 
-/-- a well-formed typed range (digits, lo ≤ hi, < 16384 apart, below 2^64) is parsed to its
-    values, with the width of the low bound as typed; errno is left alone -/
-theorem parseSingleRange_render (e : Nat) (r : Spec.Range) (hw : r.WF = true) :
-    parseSingleRange e (Spec.renderRange r) = .ok (srOf r) e := by
+theorem loTextOk_digits (cfg : Cfg) {s : Str} (h : allDigits s) : loTextOk cfg s = true := by
+  unfold loTextOk
+  simp only [Bool.or_eq_true, Bool.not_eq_true', List.all_eq_true]
+  right; exact h
+
+theorem hiTextOk_digits (cfg : Cfg) {s : Str} (h : allDigits s) (hne : s ≠ []) : hiTextOk cfg s = true := by
+  unfold hiTextOk
+  simp only [Bool.or_eq_true, Bool.not_eq_true', Bool.and_eq_true, List.isEmpty_eq_false_iff,
+    List.all_eq_true]
+  right; exact ⟨hne, h⟩
+
+/-- a well-formed typed range (digits, lo ≤ hi, < 16384 apart, below 2^64-1) is parsed to its
+    values, with the width of the low bound as typed; errno is left alone — in EVERY variant -/
+theorem parseSingleRange_render (cfg : Cfg) (e : Nat) (r : Spec.Range) (hw : r.WF = true)
+    (hd : r.hi < ULONG_MAX) :
+    parseSingleRange cfg e (Spec.renderRange r) = .ok (srOf r) e := by
   unfold Spec.Range.WF at hw
   simp only [Bool.and_eq_true, decide_eq_true_eq] at hw
   obtain ⟨⟨⟨⟨hlo, hhi⟩, hle⟩, hsz⟩, h64⟩ := hw
@@ -93,10 +105,14 @@ theorem parseSingleRange_render (e : Nat) (r : Spec.Range) (hw : r.WF = true) :
     rw [Nat.mod_eq_of_lt (by omega)]
     simp only [gt_iff_lt, decide_eq_false_iff_not, Nat.not_lt]
     rw [← hMR, hrl]; omega
-  have hchk : ∀ e, rangeCheck e r.loS.length r.lo r.hi false = .ok (srOf r) e := by
+  have hmx : ulongMaxRejected cfg r.hi = false := by
+    unfold ulongMaxRejected
+    have : r.hi ≠ ULONG_MAX := by omega
+    simp [this]
+  have hchk : ∀ e, rangeCheck cfg e r.loS.length r.lo r.hi = .ok (srOf r) e := by
     intro e
     unfold rangeCheck
-    simp [Nat.not_lt.mpr hle, hbig, erangeRejected, ulongMaxRejected, srOf]
+    simp [Nat.not_lt.mpr hle, hbig, hmx, srOf]
   unfold Spec.renderRange
   cases hh : r.hiS with
   | none =>
@@ -104,7 +120,7 @@ theorem parseSingleRange_render (e : Nat) (r : Spec.Range) (hw : r.WF = true) :
     have hhi_eq : r.hi = r.lo := by simp [Spec.Range.hi, Spec.Range.lo, hh]
     unfold parseSingleRange
     rw [cutAt_none (allDigits_notin dlo (by decide))]
-    simp only [Option.bind_none, boundsOk, boundTextOk, hiPartOf, hlo']
+    simp only [Option.bind_none, boundsOk, loTextOk_digits cfg dlo, hiPartOf, hlo']
     have := hchk e
     rw [hhi_eq] at this
     simpa [Spec.Range.lo, spec_val] using this
@@ -121,8 +137,8 @@ theorem parseSingleRange_render (e : Nat) (r : Spec.Range) (hw : r.WF = true) :
     | cons c cs =>
       have hc : c ≠ '-' := fun e => allDigits_notin dhi (x := '-') (by decide) (by simp [e])
       simp only [Option.bind_some, List.head?_cons, Option.some.injEq, hc, ↓reduceIte, boundsOk,
-        boundTextOk, Bool.and_self, Bool.not_true, Bool.false_eq_true, hlo', hiPartOf, hhi',
-        Bool.or_self, List.isEmpty_nil]
+        loTextOk_digits cfg dlo, hiTextOk_digits cfg dhi nhi, Bool.and_self, Bool.not_true,
+        Bool.false_eq_true, hlo', hiPartOf, hhi', Bool.or_self, List.isEmpty_nil]
       have := hchk e
       rw [hhiv] at this
       simpa [Spec.Range.lo, spec_val] using this
@@ -164,22 +180,24 @@ theorem joinComma_no_close : ∀ (items : List Str), (∀ it ∈ items, ']' ∉ 
     exact ⟨h x (by simp), by decide, this⟩
 
 /-! ### the range list of a group -/
-theorem parseRangeItems_render (e : Nat) : ∀ (g : List Spec.Range) (count : Nat) (acc : Array SR),
-    (∀ r ∈ g, r.WF = true) → count + g.length ≤ MAX_RANGES →
-    parseRangeItems (g.map Spec.renderRange) count e acc = .ok (acc ++ (g.map srOf).toArray) e
-  | [], _, acc, _, _ => by simp [parseRangeItems]
-  | r :: rs, count, acc, hw, hc => by
+theorem parseRangeItems_render (cfg : Cfg) (e : Nat) : ∀ (g : List Spec.Range) (count : Nat) (acc : Array SR),
+    (∀ r ∈ g, r.WF = true) → (∀ r ∈ g, r.hi < ULONG_MAX) → count + g.length ≤ MAX_RANGES →
+    parseRangeItems cfg (g.map Spec.renderRange) count e acc = .ok (acc ++ (g.map srOf).toArray) e
+  | [], _, acc, _, _, _ => by simp [parseRangeItems]
+  | r :: rs, count, acc, hw, hd, hc => by
     have hne : count ≠ MAX_RANGES := by simp only [List.length_cons] at hc; omega
     simp only [List.map_cons, parseRangeItems, hne, ↓reduceIte,
-      parseSingleRange_render e r (hw r (by simp))]
-    rw [parseRangeItems_render e rs (count + 1) (acc.push (srOf r)) (fun x hx => hw x (by simp [hx]))
+      parseSingleRange_render cfg e r (hw r (by simp)) (hd r (by simp))]
+    rw [parseRangeItems_render cfg e rs (count + 1) (acc.push (srOf r)) (fun x hx => hw x (by simp [hx]))
+      (fun x hx => hd x (by simp [hx]))
       (by simp only [List.length_cons] at hc; omega)]
     congr 1
     apply Array.ext'
     simp
 
-theorem parseRangeList_render (e : Nat) (g : List Spec.Range) (hw : Spec.groupWF g = true) :
-    parseRangeList e (Spec.joinComma (g.map Spec.renderRange)) = .ok (g.map srOf).toArray e := by
+theorem parseRangeList_render (cfg : Cfg) (e : Nat) (g : List Spec.Range) (hw : Spec.groupWF g = true)
+    (hd : ∀ r ∈ g, r.hi < ULONG_MAX) :
+    parseRangeList cfg e (Spec.joinComma (g.map Spec.renderRange)) = .ok (g.map srOf).toArray e := by
   unfold Spec.groupWF at hw
   simp only [Bool.and_eq_true, Bool.not_eq_true', List.isEmpty_eq_false_iff, decide_eq_true_eq,
     List.all_eq_true] at hw
@@ -190,7 +208,7 @@ theorem parseRangeList_render (e : Nat) (g : List Spec.Range) (hw : Spec.groupWF
     (fun it hit => by
       obtain ⟨r, hr, rfl⟩ := List.mem_map.mp hit
       exact renderRange_no_comma (hall r hr))]
-  rw [parseRangeItems_render e g 0 #[] hall (by rw [← hMR]; omega)]
+  rw [parseRangeItems_render cfg e g 0 #[] hall hd (by rw [← hMR]; omega)]
   simp
 
 /-! ### pushing the ranges of a group -/
@@ -248,9 +266,14 @@ def fitsHostBuf (pfx sfx : Str) (r : Spec.Range) : Prop :=
 instance (pfx sfx : Str) (r : Spec.Range) : Decidable (fitsHostBuf pfx sfx r) := by
   unfold fitsHostBuf; exact inferInstance
 
-theorem suffixedName_eq {pfx sfx : Str} {r : Spec.Range} (hf : fitsHostBuf pfx sfx r) {j : Nat}
-    (hj : j ≤ r.hi) : suffixedName pfx sfx r.loS.length j = pfx ++ fmtPad r.loS.length j ++ sfx := by
+theorem suffixedName_eq {cfg : Cfg} {pfx sfx : Str} {r : Spec.Range}
+    (hf : cfg.fixHostBuf = true ∨ fitsHostBuf pfx sfx r) {j : Nat}
+    (hj : j ≤ r.hi) : suffixedName cfg pfx sfx r.loS.length j = pfx ++ fmtPad r.loS.length j ++ sfx := by
   unfold suffixedName
+  rcases hf with hfix | hf
+  · simp [hfix]
+  split
+  · rfl
   apply List.take_of_length_le
   simp only [List.length_append, fmtPad_length]
   have := ndig_mono hj
@@ -274,23 +297,23 @@ theorem foldl_pushSingles (names : List Str) (h : HL) (hg : h.Good) :
   | nil => rfl
   | cons n ns ih => simp [HRange.hosts, HRange.mkSingle]
 
-theorem pushSuffixRange_range (h : HL) (hg : h.Good) (pfx sfx : Str) {r : Spec.Range}
-    (hw : r.WF = true) (hd : r.hi < ULONG_MAX) (hf : fitsHostBuf pfx sfx r) :
-    ∃ h', pushSuffixRange h pfx sfx (srOf r) = .ok h' ∧ h'.Good ∧
+theorem pushSuffixRange_range (cfg : Cfg) (h : HL) (hg : h.Good) (pfx sfx : Str) {r : Spec.Range}
+    (hw : r.WF = true) (hd : r.hi < ULONG_MAX) (hf : cfg.fixHostBuf = true ∨ fitsHostBuf pfx sfx r) :
+    ∃ h', pushSuffixRange cfg h pfx sfx (srOf r) = .ok h' ∧ h'.Good ∧
       h'.hosts = h.hosts ++ (Spec.Range.names r).map (fun n => pfx ++ n ++ sfx) := by
   unfold pushSuffixRange
   have hne : (srOf r).hi ≠ ULONG_MAX := by simp only [srOf]; omega
   simp only [hne, ↓reduceIte]
   refine ⟨_, rfl, ?_⟩
   have e : (List.range' (srOf r).lo ((srOf r).hi + 1 - (srOf r).lo)).foldl
-        (fun h j => pushRange h (HRange.mkSingle (suffixedName pfx sfx (srOf r).width j))) h =
+        (fun h j => pushRange h (HRange.mkSingle (suffixedName cfg pfx sfx (srOf r).width j))) h =
       ((List.range' r.lo (r.hi + 1 - r.lo)).map
-        (fun j => suffixedName pfx sfx r.loS.length j)).foldl
+        (fun j => suffixedName cfg pfx sfx r.loS.length j)).foldl
         (fun h n => pushRange h (HRange.mkSingle n)) h := by
     rw [List.foldl_map]; rfl
   rw [e]
   have := foldl_pushSingles ((List.range' r.lo (r.hi + 1 - r.lo)).map
-        (fun j => suffixedName pfx sfx r.loS.length j)) h hg
+        (fun j => suffixedName cfg pfx sfx r.loS.length j)) h hg
   refine ⟨this.1, ?_⟩
   rw [this.2]
   congr 1
@@ -304,15 +327,16 @@ theorem pushSuffixRange_range (h : HL) (hg : h.Good) (pfx sfx : Str) {r : Spec.R
   exact suffixedName_eq hf (by omega)
 
 /-- `_push_range_list_with_suffix` on the parsed ranges of a well-formed group -/
-theorem pushRangeListWithSuffix_group (pfx sfx : Str) : ∀ (g : List Spec.Range) (h : HL), h.Good →
-    (∀ r ∈ g, r.WF = true) → (∀ r ∈ g, r.hi < ULONG_MAX) → (∀ r ∈ g, fitsHostBuf pfx sfx r) →
-    ∃ h', pushRangeListWithSuffix h pfx sfx (g.map srOf) = .ok h' ∧ h'.Good ∧
+theorem pushRangeListWithSuffix_group (cfg : Cfg) (pfx sfx : Str) : ∀ (g : List Spec.Range) (h : HL), h.Good →
+    (∀ r ∈ g, r.WF = true) → (∀ r ∈ g, r.hi < ULONG_MAX) →
+    (∀ r ∈ g, cfg.fixHostBuf = true ∨ fitsHostBuf pfx sfx r) →
+    ∃ h', pushRangeListWithSuffix cfg h pfx sfx (g.map srOf) = .ok h' ∧ h'.Good ∧
       h'.hosts = h.hosts ++ (Spec.groupNames g).map (fun n => pfx ++ n ++ sfx)
   | [], h, hg, _, _, _ => ⟨h, rfl, hg, by simp [Spec.groupNames]⟩
   | r :: rs, h, hg, hw, hd, hf => by
-    obtain ⟨h1, e1, g1, hh1⟩ := pushSuffixRange_range h hg pfx sfx (hw r (by simp)) (hd r (by simp))
+    obtain ⟨h1, e1, g1, hh1⟩ := pushSuffixRange_range cfg h hg pfx sfx (hw r (by simp)) (hd r (by simp))
       (hf r (by simp))
-    obtain ⟨h2, e2, g2, hh2⟩ := pushRangeListWithSuffix_group pfx sfx rs h1 g1
+    obtain ⟨h2, e2, g2, hh2⟩ := pushRangeListWithSuffix_group cfg pfx sfx rs h1 g1
       (fun x hx => hw x (by simp [hx])) (fun x hx => hd x (by simp [hx]))
       (fun x hx => hf x (by simp [hx]))
     refine ⟨h2, ?_, g2, ?_⟩
@@ -422,26 +446,115 @@ theorem hostRecord_spec (n : Str) : (hostRecord n).Good ∧ (hostRecord n).hosts
       rw [fmtPad_ofDigits hdig hsne, hsuf, List.take_append_drop]
 
 /-! ### one word, all words -/
-/-- restrictions of the MODEL (= recorded defects of the code) on top of `Spec.Word.WF`:
-    D18 plain words shorter than 1023 bytes; D25 no range reaching 2^64-1; D23 names built on the
-    suffix path fit `host[4096]` -/
-def wordDom : Spec.Word → Prop
-  | .plain n => n.length < CURTOK - 1
+/-- restrictions of the MODEL on top of `Spec.Word.WF`; each one is a recorded defect and falls
+    away in the variant that repairs it:
+    D18 plain words shorter than 1023 bytes (or `fixCurTok`); D23 names built on the suffix path
+    fit `host[4096]` (or `fixHostBuf`); D25 no range reaching 2^64-1 (the repaired code REFUSES
+    such a range, so it stays outside the domain of the success theorem) -/
+def wordDom (cfg : Cfg) : Spec.Word → Prop
+  | .plain n => cfg.fixCurTok = true ∨ n.length < CURTOK - 1
   | .br pre g1 mid g2 =>
-    (∀ r ∈ g1, r.hi < ULONG_MAX) ∧ (∀ r ∈ g1, fitsHostBuf pre (mid ++ Spec.renderTail g2) r)
+    (∀ r ∈ g1, r.hi < ULONG_MAX) ∧
+    (∀ r ∈ g1, cfg.fixHostBuf = true ∨ fitsHostBuf pre (mid ++ Spec.renderTail g2) r)
 
-instance : (w : Spec.Word) → Decidable (wordDom w)
+instance (cfg : Cfg) : (w : Spec.Word) → Decidable (wordDom cfg w)
   | .plain n => by unfold wordDom; exact inferInstance
   | .br pre g1 mid g2 => by unfold wordDom; exact inferInstance
+
+/-! brackets of a well-formed suffix balance (needed for the repaired D22 test) -/
+/-- text that leaves the bracket level where it was -/
+def Neutral (a : Str) : Prop := ∀ lvl rest, bracketsBalanced lvl (a ++ rest) = bracketsBalanced lvl rest
+
+theorem Neutral.nil : Neutral [] := fun _ _ => rfl
+
+theorem Neutral.append {a b : Str} (ha : Neutral a) (hb : Neutral b) : Neutral (a ++ b) := by
+  intro lvl rest
+  rw [List.append_assoc, ha, hb]
+
+theorem Neutral.noBrackets : ∀ {s : Str}, '[' ∉ s → ']' ∉ s → Neutral s
+  | [], _, _ => Neutral.nil
+  | c :: cs, ho, hc => by
+    have h1 : c ≠ '[' := fun e => ho (by simp [e])
+    have h2 : c ≠ ']' := fun e => hc (by simp [e])
+    have ih := Neutral.noBrackets (s := cs) (fun hm => ho (List.mem_cons_of_mem _ hm))
+      (fun hm => hc (List.mem_cons_of_mem _ hm))
+    intro lvl rest
+    simp only [List.cons_append, bracketsBalanced, h1, h2, ↓reduceIte, ih lvl rest]
+
+theorem Neutral.group {body : Str} (ho : '[' ∉ body) (hc : ']' ∉ body) : Neutral ('[' :: body ++ [']']) := by
+  intro lvl rest
+  have hb := Neutral.noBrackets ho hc
+  simp only [List.cons_append, List.append_assoc, bracketsBalanced, ↓reduceIte, List.nil_append]
+  rw [hb (lvl + 1) (']' :: rest)]
+  simp [bracketsBalanced]
 
 theorem textChar_no {s : Str} (h : s.all Spec.textChar = true) : '[' ∉ s ∧ ']' ∉ s := by
   simp only [List.all_eq_true] at h
   constructor <;> intro hm <;> have := h _ hm <;> simp [Spec.textChar] at this
 
+theorem joinComma_no_open : ∀ (items : List Str), (∀ it ∈ items, '[' ∉ it) → '[' ∉ Spec.joinComma items
+  | [], _ => by simp [Spec.joinComma]
+  | [x], h => by simpa [Spec.joinComma] using h x (by simp)
+  | x :: y :: rest, h => by
+    have := joinComma_no_open (y :: rest) (fun it hit => h it (by simp [hit]))
+    simp only [Spec.joinComma, List.mem_append, List.mem_cons, not_or]
+    exact ⟨h x (by simp), by decide, this⟩
+
+theorem renderRange_no_open {r : Spec.Range} (hw : r.WF = true) : '[' ∉ Spec.renderRange r := by
+  unfold Spec.Range.WF at hw
+  simp only [Bool.and_eq_true, decide_eq_true_eq] at hw
+  obtain ⟨⟨⟨⟨hlo, hhi⟩, _⟩, _⟩, _⟩ := hw
+  obtain ⟨dlo, _⟩ := spec_digits hlo
+  unfold Spec.renderRange
+  cases hh : r.hiS with
+  | none => simpa using allDigits_notin dlo (by decide)
+  | some hs =>
+    rw [hh] at hhi
+    obtain ⟨dhi, _⟩ := spec_digits hhi
+    simp only [List.mem_append, List.mem_cons, not_or]
+    exact ⟨allDigits_notin dlo (by decide), by decide, allDigits_notin dhi (by decide)⟩
+
+theorem groupBody_no_brackets {g : List Spec.Range} (hg : Spec.groupWF g = true) :
+    '[' ∉ Spec.joinComma (g.map Spec.renderRange) ∧ ']' ∉ Spec.joinComma (g.map Spec.renderRange) := by
+  unfold Spec.groupWF at hg
+  simp only [Bool.and_eq_true, List.all_eq_true] at hg
+  have hall := hg.2
+  exact ⟨joinComma_no_open _ (fun it hit => by
+      obtain ⟨r, hr, rfl⟩ := List.mem_map.mp hit
+      exact renderRange_no_open (hall r hr)),
+    joinComma_no_close _ (fun it hit => by
+      obtain ⟨r, hr, rfl⟩ := List.mem_map.mp hit
+      exact renderRange_no_close (hall r hr))⟩
+
+theorem Neutral.renderGroup {g : List Spec.Range} (hg : Spec.groupWF g = true) :
+    Neutral (Spec.renderGroup g) := by
+  obtain ⟨ho, hc⟩ := groupBody_no_brackets hg
+  unfold Spec.renderGroup
+  exact Neutral.group ho hc
+
+/-- what follows the first group of a well-formed word has balanced brackets -/
+theorem wf_suffix_balanced {mid : Str} {g2 : Option (List Spec.Range × Str)}
+    (hmid : mid.all Spec.textChar = true)
+    (hg2 : (match g2 with | none => true | some (g, post) => Spec.groupWF g && post.all Spec.textChar) = true) :
+    bracketsBalanced 0 (mid ++ Spec.renderTail g2) = true := by
+  have hm := Neutral.noBrackets (textChar_no hmid).1 (textChar_no hmid).2
+  have ht : Neutral (Spec.renderTail g2) := by
+    cases g2 with
+    | none => exact Neutral.nil
+    | some gp =>
+      obtain ⟨g, post⟩ := gp
+      simp only [Bool.and_eq_true] at hg2
+      exact (Neutral.renderGroup hg2.1).append
+        (Neutral.noBrackets (textChar_no hg2.2).1 (textChar_no hg2.2).2)
+  have := (hm.append ht) 0 []
+  simp only [List.append_nil] at this
+  rw [this]; rfl
+
 /-- the loop body of `_hostlist_create_bracketed` on one rendered well-formed word appends
-    exactly the first-level expansion of that word -/
-theorem pushTok_word (st : PSt) (w : Spec.Word) (hw : w.WF = true) (hd : wordDom w) (hg : st.hl.Good) :
-    ∃ st', pushTok st (Spec.renderWord w) = .ok st' ∧ st'.hl.Good ∧
+    exactly the first-level expansion of that word — in every variant of the code -/
+theorem pushTok_word (cfg : Cfg) (st : PSt) (w : Spec.Word) (hw : w.WF = true) (hd : wordDom cfg w)
+    (hg : st.hl.Good) :
+    ∃ st', pushTok cfg st (Spec.renderWord w) = .ok st' ∧ st'.hl.Good ∧
       st'.hl.hosts = st.hl.hosts ++ w.expand₁ := by
   cases w with
   | plain n =>
@@ -453,7 +566,12 @@ theorem pushTok_word (st : PSt) (w : Spec.Word) (hw : w.WF = true) (hd : wordDom
     · unfold pushTok Spec.renderWord
       rw [cutAt_none hno]
       have : n.contains ']' = false := by simpa using hnc
-      simp only [this, Bool.false_eq_true, ↓reduceIte, curTok, hd]
+      have hct : curTok cfg n = some n := by
+        unfold curTok
+        rcases hd with hd | hd
+        · simp [hd]
+        · simp [hd]
+      simp only [this, Bool.false_eq_true, ↓reduceIte, hct]
     · exact pushRange_good _ _ hg hrec.1
     · simp only [pushHost, Spec.Word.expand₁]
       rw [pushRange_hosts _ _ hg.1 hrec.1, hrec.2]
@@ -465,18 +583,20 @@ theorem pushTok_word (st : PSt) (w : Spec.Word) (hw : w.WF = true) (hd : wordDom
     unfold Spec.groupWF at hg1'
     simp only [Bool.and_eq_true, List.all_eq_true] at hg1'
     have hall := hg1'.2
-    have hbody : ']' ∉ Spec.joinComma (g1.map Spec.renderRange) :=
-      joinComma_no_close _ (fun it hit => by
-        obtain ⟨r, hr, rfl⟩ := List.mem_map.mp hit
-        exact renderRange_no_close (hall r hr))
+    have hbody : ']' ∉ Spec.joinComma (g1.map Spec.renderRange) := (groupBody_no_brackets hg1).2
     have hrender : Spec.renderWord (.br pre g1 mid g2) =
         pre ++ '[' :: (Spec.joinComma (g1.map Spec.renderRange) ++ ']' :: (mid ++ Spec.renderTail g2)) := by
       simp [Spec.renderWord, Spec.renderGroup, List.append_assoc]
+    have hsok : suffixOk cfg pre (mid ++ Spec.renderTail g2) = true := by
+      unfold suffixOk
+      have h1 := (textChar_no hpre).2
+      simp [h1, wf_suffix_balanced hmid hg2]
     unfold pushTok
     rw [hrender, cutAt_append _ (textChar_no hpre).1]
     simp only
     rw [cutAt_append _ hbody]
-    simp only [parseRangeList_render st.errno g1 hg1]
+    simp only [hsok, Bool.not_true, Bool.false_eq_true, ↓reduceIte,
+      parseRangeList_render cfg st.errno g1 hg1 hd1]
     by_cases hsfx : (mid ++ Spec.renderTail g2).isEmpty = true
     · -- no suffix: `_push_range_list`
       have hnil : mid ++ Spec.renderTail g2 = [] := by simpa using hsfx
@@ -489,23 +609,24 @@ theorem pushTok_word (st : PSt) (w : Spec.Word) (hw : w.WF = true) (hd : wordDom
       intro x _
       rw [List.append_assoc (pre ++ x) mid, hnil, List.append_nil]
     · -- suffix: `_push_range_list_with_suffix`
-      obtain ⟨h', e', g', hh'⟩ := pushRangeListWithSuffix_group pre (mid ++ Spec.renderTail g2) g1
+      obtain ⟨h', e', g', hh'⟩ := pushRangeListWithSuffix_group cfg pre (mid ++ Spec.renderTail g2) g1
         st.hl hg hall hd1 hd2
       refine ⟨⟨h', st.errno⟩, ?_, g', ?_⟩
-      · simp only [hsfx, Bool.false_eq_true, ↓reduceIte, suffixOk, Bool.not_true, e']
+      · simp only [hsfx, Bool.false_eq_true, ↓reduceIte, e']
       · rw [hh']
         simp only [Spec.Word.expand₁, List.append_assoc]
 
 /-- TOKEN-LEVEL REFINEMENT: `_hostlist_create_bracketed`'s loop over the rendered words of a
     well-formed expression succeeds, keeps the list `Good`, and the list denotes exactly
     `expand₁` — order as written, repeats kept, each number at the width of its low bound -/
-theorem createToks_words : ∀ (e : Spec.Expr) (st : PSt), (∀ w ∈ e, w.WF = true) → (∀ w ∈ e, wordDom w) →
-    st.hl.Good → ∃ st', createToks st (e.map Spec.renderWord) = .ok st' ∧ st'.hl.Good ∧
+theorem createToks_words (cfg : Cfg) : ∀ (e : Spec.Expr) (st : PSt), (∀ w ∈ e, w.WF = true) →
+    (∀ w ∈ e, wordDom cfg w) →
+    st.hl.Good → ∃ st', createToks cfg st (e.map Spec.renderWord) = .ok st' ∧ st'.hl.Good ∧
       st'.hl.hosts = st.hl.hosts ++ Spec.expand₁ e
   | [], st, _, _, hg => ⟨st, rfl, hg, by simp [Spec.expand₁]⟩
   | w :: ws, st, hw, hd, hg => by
-    obtain ⟨st1, e1, g1, h1⟩ := pushTok_word st w (hw w (by simp)) (hd w (by simp)) hg
-    obtain ⟨st2, e2, g2, h2⟩ := createToks_words ws st1 (fun x hx => hw x (by simp [hx]))
+    obtain ⟨st1, e1, g1, h1⟩ := pushTok_word cfg st w (hw w (by simp)) (hd w (by simp)) hg
+    obtain ⟨st2, e2, g2, h2⟩ := createToks_words cfg ws st1 (fun x hx => hw x (by simp [hx]))
       (fun x hx => hd x (by simp [hx])) g1
     refine ⟨st2, ?_, g2, ?_⟩
     · simp only [List.map_cons, createToks, e1, e2]
